@@ -1,5 +1,6 @@
 import CookModel.Basic.Proto
 import CookModel.Num.Convert
+import CookModel.Gen.UnitsAlt
 /-
   Line protocol of the conversion model (Float instance).
 
@@ -14,6 +15,12 @@ namespace Cook.Driver
 open Cook Proto
 
 def bundledF : Converter Float := Converter.bundled Float
+
+/-- the converter of corpus/C09/alt_units.toml (built by the harness with `ConverterBuilder`) -/
+def altF : Converter Float :=
+  match Converter.ofDesc GenAlt.bundledDesc (mkTable Float Gen.DENOMS) with
+  | some c => c
+  | none => Converter.empty (mkTable Float Gen.DENOMS)
 
 def parseSystem? : String → Option System
   | "metric" => some .metric
@@ -176,6 +183,7 @@ def handleConvertWith (c : Converter Float) : List String → Option String
 
 def handleConvert : List String → Option String
   | "cv" :: "b" :: rest => if bundledF.wf then handleConvertWith bundledF rest else some "pre-violated"
+  | "cv" :: "a" :: rest => if altF.wf then handleConvertWith altF rest else some "pre-violated"
   | _ => none
 
 end Cook.Driver
